@@ -10,6 +10,8 @@ module N :
 
   val succ : coq_N -> coq_N
 
+  val succ_pos : coq_N -> positive
+
   val add : coq_N -> coq_N -> coq_N
 
   val sub : coq_N -> coq_N -> coq_N
@@ -25,4 +27,14 @@ module N :
   val pos_div_eucl : positive -> coq_N -> coq_N * coq_N
 
   val div_eucl : coq_N -> coq_N -> coq_N * coq_N
+
+  val coq_lor : coq_N -> coq_N -> coq_N
+
+  val coq_land : coq_N -> coq_N -> coq_N
+
+  val ldiff : coq_N -> coq_N -> coq_N
+
+  val coq_lxor : coq_N -> coq_N -> coq_N
+
+  val to_nat : coq_N -> nat
  end
